@@ -222,6 +222,9 @@ func (fx *FnCtx) execFunction(fn *ssa.Function, args []Val, bindings []Val, st *
 	if isRoot && fx.rootSpec != nil {
 		fr.spec = fx.rootSpec
 	}
+	if isRoot {
+		fx.rootFrame = fr
+	}
 	fr.tracked = computeTracked(fn)
 	fr.loops = analyzeLoops(fn)
 	for i, p := range fn.Params {
@@ -253,6 +256,9 @@ func (fx *FnCtx) execFunction(fn *ssa.Function, args []Val, bindings []Val, st *
 			continue
 		}
 		fr.execBlock(b, cur, ins, &rets, heads)
+	}
+	if isRoot {
+		fx.rootRets = rets
 	}
 	// merge return points
 	if len(rets) == 0 {
@@ -426,6 +432,14 @@ func (fr *Frame) enterLoop(l *loop, in *State, heads map[*ssa.BasicBlock]*loopHe
 		fx.assume(st.guard, le(st.alloc, na))
 		st.alloc = na
 	}
+	// references held in havocked cells were allocated earlier
+	for _, a := range mods.allocs {
+		if c := fr.cells[a]; c != nil {
+			if v, live := st.cells[c]; live {
+				fx.assumeRefsBelow(st, v)
+			}
+		}
+	}
 	h.st = st
 	// automatic invariant of compiler-generated range-index loops:
 	// -1 <= rangeindex < bound (the bound is a register defined before the loop)
@@ -442,7 +456,8 @@ func (fr *Frame) enterLoop(l *loop, in *State, heads map[*ssa.BasicBlock]*loopHe
 			if !fx.eng.useClause(inv) {
 				continue
 			}
-			t := fr.evalClause(inv, st, nil, nil)
+			inv := inv
+			t := fx.hyp(func() T { return fr.evalClause(inv, st, nil, nil) })
 			fx.assume(st.guard, t)
 		}
 		for _, ap := range ls.HeadApplies {
@@ -1159,7 +1174,7 @@ func (fr *Frame) execSlice(x *ssa.Slice, st *State) {
 // component c of its element shape.
 func (fx *FnCtx) sliceBacking(st *State, elem *Shape, ref T, c int) T {
 	ash := &Shape{kind: KArr, elem: elem, n: -1, key: "[?]" + elem.key}
-	return sel(fx.heapTerm(st, heapName(ash, c), heapSort(ash, c)), ref)
+	return fx.selHeap(fx.heapTerm(st, heapName(ash, c), heapSort(ash, c)), ref)
 }
 
 func (fr *Frame) execMakeSlice(x *ssa.MakeSlice, st *State) {
@@ -1430,7 +1445,7 @@ func (fr *Frame) binop(op token.Token, a, b Val, rsh *Shape, st *State, pos toke
 		}
 	case KOpaque:
 		// ordered type parameters: an uninterpreted total order
-		fx.decls.Raw("(declare-fun |ord.lt| (Int Int) Bool)")
+		fx.declareOrd()
 		switch op {
 		case token.LSS:
 			return mkBool(rsh, app("|ord.lt|", a.t(), b.t()))
@@ -1444,6 +1459,16 @@ func (fr *Frame) binop(op token.Token, a, b Val, rsh *Shape, st *State, pos toke
 	}
 	unsupp("binary %s on %s", op, a.sh.key)
 	return Val{}
+}
+
+// declareOrd declares the strict total order used for values of ordered
+// type parameters (floats with NaN are outside the model).
+func (fx *FnCtx) declareOrd() {
+	fx.decls.Raw("(declare-fun |ord.lt| (Int Int) Bool)")
+	fx.decls.Raw("(assert (forall ((a Int)) (not (|ord.lt| a a))))")
+	fx.decls.Raw("(assert (forall ((a Int) (b Int) (c Int)) (! (=> (and (|ord.lt| a b) (|ord.lt| b c)) (|ord.lt| a c)) :pattern ((|ord.lt| a b) (|ord.lt| b c)))))")
+	fx.decls.Raw("(assert (forall ((a Int) (b Int)) (! (or (|ord.lt| a b) (= a b) (|ord.lt| b a)) :pattern ((|ord.lt| a b)))))")
+	fx.noteAssumption("values of cmp.Ordered type parameters are totally ordered by < (NaN excluded)")
 }
 
 func goDiv(x, y T, signed bool) T {
